@@ -68,7 +68,7 @@ func c03Tokens(nums []string) []string {
 	for _, n := range nums {
 		t = append(t, "s-maxage="+n)
 	}
-	t = append(t, "no-cache", "no-store", "private", "public", "must-revalidate", "no-transform", "immutable", "stale-while-revalidate=30")
+	t = append(t, "no-cache", "no-store", "private", "public", "must-revalidate", "no-transform", "immutable", "stale-while-revalidate=30", `private="set-cookie"`, `no-cache="set-cookie"`, "no-cache=x")
 	return t
 }
 
@@ -99,8 +99,8 @@ func c03Judge(h http.Header, got int) (sig, msg string) {
 
 func init() {
 	Register("C03", func(c *Ctx) {
-		c.Out.Rule = "small-scope exhaustive enumeration, no randomness: (1) every Cache-Control built from <=2 (quick) / <=3 (thorough) ordered distinct directives of {max-age=N, s-maxage=N, no-cache, no-store, private, public, must-revalidate, no-transform, immutable, stale-while-revalidate} x casing {lower, UPPER, Mixed} x separators {',', ', ', ' , '} x {one header line, one line per directive} x Set-Cookie {absent, value, two values, empty-then-value} x Age {absent,0,1,10,11,-5,abc,1e20}, N in {0,1,10,2^31,2^63-1,2^63,1e20}, through pike's lifetime function against the reference classifier; (2) methods x status codes x representative header sets through the full handler chain, a second identical request deciding 'stored', with label truth and exactly-once forwarding; non-trivial = distinct header sets"
-		c.Out.Assume = []string{"directive arguments are bare tokens (no quoted strings)", "where a number is malformed or overflows the oracle only checks stored => not forbidden"}
+		c.Out.Rule = "small-scope exhaustive enumeration, no randomness: (1) every Cache-Control built from <=2 (quick) / <=3 (thorough) ordered distinct directives of {max-age=N, s-maxage=N, no-cache, no-store, private (bare and with an argument: private=\"set-cookie\", no-cache=\"set-cookie\", no-cache=x), public, must-revalidate, no-transform, immutable, stale-while-revalidate} x casing {lower, UPPER, Mixed} x separators {',', ', ', ' , '} x {one header line, one line per directive} x Set-Cookie {absent, value, two values, empty-then-value} x Age {absent,0,1,10,11,-5,abc,1e20}, N in {0,1,10,2^31,2^63-1,2^63,1e20}, through pike's lifetime function against the reference classifier; (2) methods x status codes x representative header sets through the full handler chain, a second identical request deciding 'stored', with label truth and exactly-once forwarding; non-trivial = distinct header sets"
+		c.Out.Assume = []string{"quoted directive arguments contain no comma", "where a number is malformed or overflows the oracle only checks stored => not forbidden"}
 		st := c.Stat("lifetime-function", "enumeration")
 		nums := c03Nums
 		toks := c03Tokens(nums)
